@@ -228,3 +228,35 @@ Definition c11_reconn_m (k : c11_reconn_case) : bool :=
 
 Definition c11_reconn_violations (l : list c11_reconn_case) : list nat := indices_where (fun k => negb (c11_reconn_v k)) l.
 Definition c11_reconn_mismatches (l : list c11_reconn_case) : list nat := indices_where (fun k => negb (c11_reconn_m k)) l.
+
+(* ---------- Connect's context ending at each point of the first connection's establishment ---------- *)
+(* point, follow-up, result of Connect, the first connection was established (StateActive seen), follow-up as
+   required (Disconnect returned nil promptly / a redial followed the peer close / -), nothing left running at the
+   end (before the final cleanup: only a loop supervising an established connection; after it: nothing), bad *)
+Definition c11_cx_case := (N * N * N * bool * bool * bool * bool)%type.
+
+Definition dec_cxpoint (n : N) : option cxpoint :=
+  match n with 0 => Some CX_BeforeDial | 1 => Some CX_DuringDial | 2 => Some CX_AfterSetClient | 3 => Some CX_ConnAckWait
+  | 4 => Some CX_InActiveCb | 5 => Some CX_AfterReturn | _ => None end.
+Definition dec_cxfollow (n : N) : option cxfollow :=
+  match n with 0 => Some CF_Disconnect | 1 => Some CF_PeerClose | 2 => Some CF_Nothing | _ => None end.
+
+Definition c11_cx_v (x : c11_cx_case) : bool :=
+  let '(p, f, r, est, fok, clean, bad) := x in
+  match dec_cxpoint p, dec_cxfollow f with
+  | Some p, Some f => negb bad && cx_valid p f && cx_ok p (mkCX (dec_rres r) fok clean)
+  | _, _ => false
+  end.
+
+Definition c11_cx_m (x : c11_cx_case) : bool :=
+  let '(p, f, r, est, fok, clean, bad) := x in
+  match dec_cxpoint p, dec_cxfollow f with
+  | Some p, Some f =>
+      let o := cx_run p f in
+      rres_eqb (cx_connect o) (dec_rres r) && Bool.eqb (cx_follow_ok o) fok && Bool.eqb (cx_clean o) clean &&
+      Bool.eqb (cx_established p) est
+  | _, _ => false
+  end.
+
+Definition c11_cx_violations (l : list c11_cx_case) : list nat := indices_where (fun k => negb (c11_cx_v k)) l.
+Definition c11_cx_mismatches (l : list c11_cx_case) : list nat := indices_where (fun k => negb (c11_cx_m k)) l.
